@@ -604,7 +604,27 @@ class CastUnmarshaller(AbstractUnmarshaller[T]):
         return self.caster(decoded)
 
 
-PathUnmarshaller = CastUnmarshaller[pathlib.Path]
+PathT = tp.TypeVar("PathT", bound=pathlib.PurePath)
+
+
+class PathUnmarshaller(AbstractUnmarshaller[PathT], tp.Generic[PathT]):
+    """Unmarshaller that converts an input to a [`pathlib.Path`][] (or relatives).
+
+    Note:
+        A path is plain text: bytes are decoded, but the text is never evaluated
+        as JSON or a Python literal (`"1"` and `"null"` are valid file names).
+
+    See Also:
+        - [`typelib.serdes.decode`][]
+    """
+
+    def __call__(self, val: tp.Any) -> PathT:
+        decoded = serdes.decode(val)
+        if isinstance(decoded, self.t):
+            return decoded
+        return self.t(decoded)
+
+
 MappingUnmarshaller = CastUnmarshaller[tp.Mapping]
 IterableUnmarshaller = CastUnmarshaller[tp.Iterable]
 
